@@ -133,8 +133,10 @@ def gen_schedules(fam, tier, seed, work):
     for sim in fam["simulate"][tier]:
         d = os.path.join(work, "sim-" + sim["cfg"])
         spec_copy(d)
+        m = re.search(r"^\s*D = (\d+)", open(os.path.join(d, sim["cfg"] + ".cfg")).read(), re.M)
+        depth = int(m.group(1)) if m else sim["depth"]      # behaviours are printed when they reach length D
         out, rc, wall = tlc(d, sim["module"], sim["cfg"], workers=1, timeout=900,
-                            extra=["-simulate", "num=%d" % sim["num"], "-depth", str(sim["depth"]),
+                            extra=["-simulate", "num=%d" % sim["num"], "-depth", str(depth),
                                    "-seed", str(seed * 7919 + sim.get("salt", 0))])
         open(os.path.join(d, "out.txt"), "w").write(out)
         ss = sched_extract.extract(os.path.join(d, "out.txt"))
@@ -146,9 +148,10 @@ def gen_schedules(fam, tier, seed, work):
             s["id"] = sid
             s["src"] = "sim:" + sim["cfg"]
             s["driver"] = sim.get("driver", fam["driver"])
+            s["isolate"] = bool(sim.get("isolate"))
             s["nvb"] = s["cfg"].get("NVB", 0)
             scheds.append(s)
-        gens.append({"source": "tlc -simulate " + sim["cfg"], "behaviours": len(ss), "depth": sim["depth"],
+        gens.append({"source": "tlc -simulate " + sim["cfg"], "behaviours": len(ss), "depth": depth,
                      "wall_s": round(wall, 1)})
         shutil.rmtree(d, ignore_errors=True)
     for sc in fam.get("scenarios", []):
@@ -170,6 +173,7 @@ def gen_schedules(fam, tier, seed, work):
             s["id"] = sid
             s["src"] = "scenario:%s#%s" % (sc["file"], s.get("j"))
             s["driver"] = sc.get("driver", fam["driver"])
+            s["isolate"] = bool(sc.get("isolate"))
             s["nvb"] = s["cfg"].get("NVB", 0)
             scheds.append(s)
         gens.append({"source": "scenarios " + sc["file"], "behaviours": len(ss), "wall_s": round(wall, 1)})
@@ -181,20 +185,20 @@ def drive(vdrive, scheds, work, shards=8):
     """execute the schedules on the real code, several driver processes in parallel."""
     by = {}
     for s in scheds:
-        by.setdefault(s["driver"], []).append(s)
+        by.setdefault((s["driver"], bool(s.get("isolate"))), []).append(s)
     lines = []
     summ = {"runs": 0, "steps": 0, "diverged_runs": 0, "skipped_steps": 0}
-    for drv, ss in by.items():
-        k = max(1, min(shards, len(ss) // 8 or 1))
+    for (drv, iso), ss in by.items():
+        k = max(1, min(shards, len(ss) // 4 or 1))
         procs = []
         for i in range(k):
             part = ss[i::k]
-            fin = os.path.join(work, "sched-%s-%d.ndjson" % (drv, i))
-            fout = os.path.join(work, "trace-%s-%d.ndjson" % (drv, i))
+            fin = os.path.join(work, "sched-%s-%d-%d.ndjson" % (drv, iso, i))
+            fout = os.path.join(work, "trace-%s-%d-%d.ndjson" % (drv, iso, i))
             with open(fin, "w") as f:
                 for s in part:
                     f.write(json.dumps(s, separators=(",", ":")) + "\n")
-            procs.append((subprocess.Popen([vdrive, "-spec", drv, "-in", fin, "-out", fout],
+            procs.append((subprocess.Popen([vdrive, "-spec", drv, "-in", fin, "-out", fout] + (["-isolate"] if iso else []),
                                            stdout=subprocess.PIPE, stderr=subprocess.PIPE, text=True), fin, fout))
         for p, fin, fout in procs:
             try:
@@ -235,7 +239,7 @@ def monitor(lines, scheds, fam, work):
                     cur = t["run"]
                     o.write(json.dumps({"ev": "Reset", "run": cur}) + "\n")
                     n += 1
-                for e in t["evs"]:
+                for e in t.get("evs") or []:
                     e = dict(e)
                     e.pop("msg", None)
                     o.write(json.dumps(e, separators=(",", ":")) + "\n")
@@ -305,7 +309,7 @@ def family_run(famname, tier, seed):
             rp = os.path.join(rdir, "run%d.json" % run)
             if not os.path.exists(rp):
                 json.dump({"family": famname, "schedule": smap[run], "trace": by_run.get(run, [])}, open(rp, "w"))
-            viols.append({"run": run, "prop": prop, "msg": msg, "src": smap[run]["src"], "replay": rp,
+            viols.append({"run": run, "fam": famname, "prop": prop, "msg": msg, "src": smap[run]["src"], "replay": rp,
                           "labels": [st["l"] for st in smap[run]["steps"]][:80]})
         labels_seen = {}
         for s in scheds:
@@ -339,6 +343,22 @@ def lab(l):
     return l.get("a", "?") + "(" + ",".join(str(v) for k, v in sorted(l.items()) if k != "a") + ")"
 
 
+def merge(rs):
+    """union of the results of several families"""
+    r = {"family": "+".join(x["family"] for x in rs), "model_checking": [], "generators": [], "runs": 0, "steps": 0,
+         "diverged_runs": 0, "skipped_steps": 0, "first_divergences": [], "monitored_events": 0, "violations": [],
+         "label_counts": {}, "distinct_schedules": 0, "samples": [], "from_cache": all(x.get("from_cache") for x in rs)}
+    for x in rs:
+        for k in ("model_checking", "generators", "first_divergences", "violations"):
+            r[k] += x[k]
+        for k in ("runs", "steps", "diverged_runs", "skipped_steps", "monitored_events", "distinct_schedules"):
+            r[k] += x[k]
+        for a, n in x["label_counts"].items():
+            r["label_counts"][a] = r["label_counts"].get(a, 0) + n
+        r["samples"] += x["samples"][:2] + x["samples"][-1:]
+    return r
+
+
 def known_findings():
     p = os.path.join(VERIF, "known_findings.json")
     if not os.path.exists(p):
@@ -353,12 +373,14 @@ def matches(finding, v):
         return False
     if finding.get("reason") and finding["reason"] not in v["msg"]:
         return False
-    want = finding.get("history", [])
-    i = 0
-    for l in v["labels"]:
-        if i < len(want) and all(l.get(k) == val for k, val in want[i].items()):
-            i += 1
-    return i == len(want)
+    for want in finding.get("histories", [finding.get("history", [])]):
+        i = 0
+        for l in v["labels"]:
+            if i < len(want) and all(l.get(k) == val for k, val in want[i].items()):
+                i += 1
+        if i == len(want):
+            return True
+    return False
 
 
 def write_evidence(prop, tier, seed, fam, r, mine, known, wall):
@@ -403,10 +425,11 @@ def run_check(prop, tier, seed):
         mod = __import__(pf["custom"])
         return mod.run(prop, tier, seed)
     try:
-        r = family_run(pf["family"], tier, seed)
+        rs = [family_run(f, tier, seed) for f in pf["families"]]
     except Machinery as e:
         print("MACHINERY-ERROR property=%s %s" % (prop, e))
         return 2
+    r = merge(rs)
     ids = set(pf.get("monitors", [prop]))
     mine = [v for v in r["violations"] if v["prop"] in ids]
     kf = known_findings()
@@ -421,18 +444,18 @@ def run_check(prop, tier, seed):
     out_fresh = []
     for v in fresh[:10]:
         os.makedirs(rep_dir, exist_ok=True)
-        dst = os.path.join(rep_dir, "%s-seed%d-run%d.json" % (prop, seed, v["run"]))
+        dst = os.path.join(rep_dir, "%s-seed%d-%s-run%d.json" % (prop, seed, v.get("fam", "x"), v["run"]))
         try:
             shutil.copy(v["replay"], dst)
         except OSError:
             dst = v["replay"]
         out_fresh.append((v, dst))
-    write_evidence(prop, tier, seed, pf["family"], r, fresh, sorted(set(known_lines)), time.time() - t0)
+    write_evidence(prop, tier, seed, r["family"], r, fresh, sorted(set(known_lines)), time.time() - t0)
     for l in sorted(set(known_lines)):
         print(l)
     print("property=%s tier=%s seed=%d family=%s: TLC %s distinct states; %d schedules / %d steps on the real code; "
           "%d diverged from the specification; %d monitored events; %d violations"
-          % (prop, tier, seed, pf["family"], sum(x["distinct"] for x in r["model_checking"]), r["runs"], r["steps"],
+          % (prop, tier, seed, r["family"], sum(x["distinct"] for x in r["model_checking"]), r["runs"], r["steps"],
              r["diverged_runs"], r["monitored_events"], len(fresh)))
     if r["diverged_runs"]:
         for d in r["first_divergences"][:2]:
